@@ -1,5 +1,5 @@
 (* C06 -- Queries relate dimensions exactly as the stored records relate them.
-   Statements only; every proof is `exact <lemma>` from Proofs/JoinProofs{,B,C,D}.v.  Model: Model/Join.v over the C12
+   Statements only; every proof is `exact <lemma>` from Proofs/JoinProofs{,B,C,D,X,X2,X3,X4}.v.  Model: Model/Join.v over the C12
    universe model; `jc_current` = the current universe and its spatial families REGENERATED from dimensions.yaml
    (Gen/Universes.v) + the view-of map (band <- physical_filter, checked against the implementation on every run).
 
@@ -13,10 +13,16 @@
                            (NOT enforced by the schema: hypothesis; refuted without it, see dangling_band_refuted)
      ovl_sound c env s     every pixel of the envelope of every stored region has its row in the overlap table
      ovl_nonnull c s       no overlap row belongs to a record whose region is NULL
+     pk_unique c d         at most one record per primary key                  (proved for every history)
+     ovl_exact c env s     every overlap row is a pixel of the envelope of the region stored under its key
+     keys_nodup d          the association list of tables has one entry per element (proved for every history)
+     qrecords c ov s e     Butler.query_dimension_records(e): the query over e's minimal group with e's table joined too
+     temporal_fams / tjoin_needed / explicit_tjoin    temporal families of a group, automatic / explicit temporal join
      ov, env, env_sound    abstract geometry: exact overlap, common-skypix envelope, "overlapping regions share a pixel" *)
-From Coq Require Import String List Bool ZArith NArith.
+From Coq Require Import String List Bool ZArith NArith Permutation.
 From V Require Import Model.Universe Model.Group Gen.Universes Model.Join Model.JoinCheck
-  Proofs.GroupProofs Proofs.JoinProofs Proofs.JoinProofsB Proofs.JoinProofsC Proofs.JoinProofsD.
+  Proofs.GroupProofs Proofs.JoinProofs Proofs.JoinProofsB Proofs.JoinProofsC Proofs.JoinProofsD
+  Proofs.JoinProofsX Proofs.JoinProofsX2 Proofs.JoinProofsX3 Proofs.JoinProofsX4.
 Import ListNotations.
 Open Scope string_scope.
 Open Scope list_scope.
@@ -145,6 +151,128 @@ Theorem dangling_band_refuted :
 Proof. exact dangling_band_refuted_p. Qed.
 Print Assumptions dangling_band_refuted.
 
+(* ==== extension (wave 5) ==== *)
+(* order independence at FULL strength: two histories without skip_existing whose final tables are equal as sets (in
+   whatever order the records were inserted, replaced or synchronised, refused operations included): both queries
+   answer, the answers are permutations of each other, contain no duplicate, and are the specification of the final
+   records.  Any universe / group with plan_okb *)
+Theorem order_independent : forall (ov : N -> N -> bool) (env : N -> list N),
+  (forall x y, ov x y = true -> exists p, In p (env x) /\ In p (env y)) ->
+  forall c h h' ns,
+  wf_universe (ju c) = true -> uni_okb c = true -> plan_okb c ns = true -> skip_free h = true -> skip_free h' = true ->
+  let s := run_hist c env h st0 in let s' := run_hist c env h' st0 in
+  view_closed c (recs s) -> view_closed c (recs s') -> same_tables (recs s) (recs s') ->
+  exists l l', query c ov s ns = QOk l /\ query c ov s' ns = QOk l' /\ Permutation l l' /\ NoDup l /\ NoDup l'
+               /\ l = spec c ov (recs s) ns /\ l' = spec c ov (recs s') ns.
+Proof. exact order_independent_p. Qed.
+Print Assumptions order_independent.
+
+(* the same for any two STATES satisfying the data hypotheses (not only reachable ones) *)
+Theorem order_independent_states : forall (ov : N -> N -> bool) (env : N -> list N),
+  (forall x y, ov x y = true -> exists p, In p (env x) /\ In p (env y)) ->
+  forall c s s' ns,
+  wf_universe (ju c) = true -> uni_okb c = true -> plan_okb c ns = true ->
+  keys_nodup (recs s) -> fk_closed c (recs s) -> view_closed c (recs s) -> ovl_sound c env s -> ovl_nonnull c s ->
+  keys_nodup (recs s') -> fk_closed c (recs s') -> view_closed c (recs s') -> ovl_sound c env s' -> ovl_nonnull c s' ->
+  same_tables (recs s) (recs s') ->
+  exists l l', query c ov s ns = QOk l /\ query c ov s' ns = QOk l' /\ Permutation l l' /\ NoDup l /\ NoDup l'
+               /\ l = spec c ov (recs s) ns /\ l' = spec c ov (recs s') ns.
+Proof. exact order_independent_states_p. Qed.
+Print Assumptions order_independent_states.
+
+(* the piece that was missing from order_independent_partial: the candidate enumerations are duplicate-free
+   permutations of each other *)
+Theorem candidates_permutation : forall d d' ns, keys_nodup d -> keys_nodup d' -> same_tables d d' ->
+  Permutation (cands d ns) (cands d' ns) /\ NoDup (cands d ns).
+Proof. intros. split; [apply cands_perm; auto|apply cands_NoDup]. Qed.
+Print Assumptions candidates_permutation.
+
+Theorem order_independent_current : forall (ov : N -> N -> bool) (env : N -> list N),
+  (forall x y, ov x y = true -> exists p, In p (env x) /\ In p (env y)) ->
+  forall h h' l ns, In l (all_subsets (nonskypix_dimension_names u_current)) -> closure u_current l = GOk ns ->
+  skip_free h = true -> skip_free h' = true ->
+  let s := run_hist jc_current env h st0 in let s' := run_hist jc_current env h' st0 in
+  view_closed jc_current (recs s) -> view_closed jc_current (recs s') -> same_tables (recs s) (recs s') ->
+  exists r r', query jc_current ov s ns = QOk r /\ query jc_current ov s' ns = QOk r' /\ Permutation r r' /\ NoDup r /\ NoDup r'
+               /\ r = spec jc_current ov (recs s) ns /\ r' = spec jc_current ov (recs s') ns.
+Proof. exact order_independent_current_p. Qed.
+Print Assumptions order_independent_current.
+
+(* primary keys: at most one record per key after EVERY history (all five operation kinds) *)
+Theorem primary_key_unique : forall c env h, wf_universe (ju c) = true -> pk_unique c (recs (run_hist c env h st0)).
+Proof. exact pk_unique_hist_p. Qed.
+Print Assumptions primary_key_unique.
+
+(* overlap tables, EXACT by pixel, histories without skip_existing: every row (k, p) is a pixel p of the envelope of the
+   region stored under key k (with overlap_tables_inv_sound: rows = exactly the envelopes) *)
+Theorem overlap_tables_inv_exact : forall c env h, wf_universe (ju c) = true -> skip_free h = true ->
+  pk_unique c (recs (run_hist c env h st0)) /\ ovl_exact c env (run_hist c env h st0) /\ ovl_spatial_only c (run_hist c env h st0).
+Proof. exact ovl_exact_hist_p. Qed.
+Print Assumptions overlap_tables_inv_exact.
+
+(* ... as one equivalence per stored record and pixel *)
+Theorem overlap_tables_inv : forall c env h e r p, wf_universe (ju c) = true -> skip_free h = true ->
+  let s := run_hist c env h st0 in
+  In e (ju c) -> is_spatial e = true -> In r (tget (recs s) (ename e)) ->
+  ((exists k, In (k, p) (oget (ovl s) (ename e)) /\ agrees (ereq e) k (rvals r) = true)
+   <-> exists x, rregion r = Some x /\ In p (env x)).
+Proof. exact overlap_tables_inv_p. Qed.
+Print Assumptions overlap_tables_inv.
+
+(* joining additional tables only filters the answer (used for record queries; also: a plan with more tables than
+   necessary never ADDS rows) *)
+Theorem extra_join_filters : forall c ov s plan extra ns l, run_plan c ov s plan ns = QOk l ->
+  run_plan c ov s (plan ++ extra) ns = QOk (filter (joined c (recs s) extra) l).
+Proof. exact run_plan_extra. Qed.
+Print Assumptions extra_join_filters.
+
+(* Butler.query_dimension_records: exactly the stored records whose data ID is a row of the specification over the
+   element's minimal group *)
+Theorem records_query_correct : forall (ov : N -> N -> bool) (env : N -> list N),
+  (forall x y, ov x y = true -> exists p, In p (env x) /\ In p (env y)) ->
+  forall c s e ns,
+  wf_universe (ju c) = true -> uni_okb c = true -> view_of c (ename e) = None ->
+  closure (ju c) (deps e) = GOk ns -> plan_okb c ns = true ->
+  fk_closed c (recs s) -> view_closed c (recs s) -> ovl_sound c env s -> ovl_nonnull c s ->
+  qrecords c ov s e = ROkRecs (filter (fun r => existsb (agrees (deps e) (rvals r)) (spec c ov (recs s) ns))
+                                      (tget (recs s) (ename e))).
+Proof. exact records_query_correct_p. Qed.
+Print Assumptions records_query_correct.
+
+Theorem records_plan_ok_current : forallb rec_plan_okb (filter (has_table jc_current) u_current) = true.
+Proof. exact records_plan_ok_current_p. Qed.
+Print Assumptions records_plan_ok_current.
+
+Theorem history_records_query_correct_current : forall (ov : N -> N -> bool) (env : N -> list N),
+  (forall x y, ov x y = true -> exists p, In p (env x) /\ In p (env y)) ->
+  forall h e, In e u_current -> has_table jc_current e = true -> skip_free h = true ->
+  let s := run_hist jc_current env h st0 in
+  view_closed jc_current (recs s) ->
+  exists ns, closure u_current (deps e) = GOk ns /\
+    qrecords jc_current ov s e
+    = ROkRecs (filter (fun r => existsb (agrees (deps e) (rvals r)) (spec jc_current ov (recs s) ns)) (tget (recs s) (ename e))).
+Proof. exact history_records_query_correct_current_p. Qed.
+Print Assumptions history_records_query_correct_current.
+
+(* whatever the state: a record query returns stored records only *)
+Theorem records_query_subset_stored : forall c ov s e l, qrecords c ov s e = ROkRecs l -> incl l (tget (recs s) (ename e)).
+Proof. exact records_query_subset. Qed.
+Print Assumptions records_query_subset_stored.
+
+(* temporal families: no closed group of the shipped universe has two, so no automatic temporal join between dimension
+   records exists and `query` rightly ignores the records' timespans (bound: the 2^13 subsets); an explicit
+   `a.timespan OVERLAPS b.timespan` between two temporal elements is always rejected *)
+Theorem no_temporal_join_current : forallb closed_no_tjoinb (all_subsets (nonskypix_dimension_names u_current)) = true.
+Proof. exact no_temporal_join_current_p. Qed.
+Print Assumptions no_temporal_join_current.
+
+Theorem explicit_temporal_join_invalid_current :
+  temporal_elems u_current <> [] /\
+  forallb (fun a => forallb (fun b => match explicit_tjoin jc_current (ename a) (ename b) with TJInvalid => true | _ => false end)
+                            (temporal_elems u_current)) (temporal_elems u_current) = true.
+Proof. exact explicit_tjoin_invalid_current_p. Qed.
+Print Assumptions explicit_temporal_join_invalid_current.
+
 (* ---- non-vacuity: a reachable state satisfying every hypothesis, with a spatial query that returns a row ---- *)
 Example geometry_witness : forall x y, ov_w x y = true -> exists p, In p (env_w x) /\ In p (env_w y).
 Proof. exact env_w_sound. Qed.
@@ -158,3 +286,17 @@ Proof. exact example_history_p. Qed.
 
 Example example_view_closed : view_closed jc_current (recs (run_hist jc_current env_w h_example st0)).
 Proof. exact example_view_closed_p. Qed.
+
+(* a skip-free history with timespans: a sync that differs only in the timespan is a conflict, the same with update
+   succeeds; the record query returns the consistent visit_definition row and leaves out the one whose exposure has another
+   physical filter than its visit (two rows are stored) *)
+Example example_records :
+  skip_free h_recs = true
+  /\ run_outs jc_current env_w h_recs st0 = [ROk; ROk; ROk; ROk; ROk; ROk; ROk; ROk; ROk; ROk; RConflict; RUpdated]
+  /\ qrecords jc_current ov_w (run_hist jc_current env_w h_recs st0) e_visit_definition
+     = ROkRecs [R [("instrument", 1%Z); ("exposure", 1%Z); ("visit", 1%Z)] None]
+  /\ length (tget (recs (run_hist jc_current env_w h_recs st0)) "visit_definition") = 2%nat.
+Proof. exact example_records_p. Qed.
+
+Example example_records_view_closed : view_closed jc_current (recs (run_hist jc_current env_w h_recs st0)).
+Proof. exact example_records_view_closed_p. Qed.
